@@ -110,9 +110,9 @@ theorem getD_set (m : Mat α C) (r c : Nat) (x : α) (r' c' : Nat) (d : α) :
       by_cases hc : c' = c
       · subst hc
         by_cases hcc : c' < C
-        · simp [hcc, Vector.getElem?_setIfInBounds]
-        · simp [hcc, Vector.getElem?_setIfInBounds]
-      · simp [hc, Vector.getElem?_setIfInBounds, Ne.symm hc]
+        · simp [hcc]
+        · simp [hcc]
+      · simp [hc, Ne.symm hc]
     · simp [hlt]
   · have hr' : ¬ r' = r := fun h => hr h.symm
     simp [hr, hr']
